@@ -561,11 +561,11 @@ fn exhaustive(ctx: &Ctx, rep: &mut Report, max_len: usize) {
 
 pub fn run(ctx: &Ctx, rep: &mut Report) {
     exhaustive(ctx, rep, ctx.tier.pick(4, 5));
-    let cases = ctx.share(ctx.tier.pick(100_000, 8_000_000));
+    let cases = ctx.share(ctx.tier.pick(400_000, 8_000_000));
     engine::drive(ctx, rep, "random", case_strategy(), cases, check_case);
-    let cases = ctx.share(ctx.tier.pick(40_000, 2_400_000));
+    let cases = ctx.share(ctx.tier.pick(160_000, 2_400_000));
     engine::drive(ctx, rep, "codec-read", codec_case_strategy(), cases, check_codec_case);
-    let cases = ctx.share(ctx.tier.pick(3_000, 600_000));
+    let cases = ctx.share(ctx.tier.pick(12_000, 600_000));
     engine::drive(ctx, rep, "large-read-sequences", seq_case_strategy(), cases, check_seq_case);
 }
 
